@@ -32,7 +32,7 @@ static void deflate_layers(void)
 {
 	static uint8_t *LIN;
 	static const int lens[] = { 300, 600, 4096, 70000 };
-	static const int pats[] = { PAT_TEXT, PAT_XS, PAT_ZERO, PAT_P258 };
+	static const int pats[] = { PAT_LOG, PAT_XS, PAT_ZERO, PAT_P258, PAT_TEXT };
 	static const int cpus[] = { CPU_BASE, CPU_SSE, CPU_AVX2, CPU_AVX512G2 };
 	static const int dev_in[] = { 0, 1, 7, 8, 9, 300, -1 }, dev_out[] = { 0, 1, 7, 8, 9, 15, 16, 17, 274, -1 };
 	if (!LIN)
@@ -43,7 +43,7 @@ static void deflate_layers(void)
 	}
 	uint64_t unit = 0;
 	for (int li = 0; li < (v_thorough ? 4 : 3); li++)
-		for (int pi = 0; pi < (v_thorough ? 4 : 2); pi++)
+		for (int pi = 0; pi < (v_thorough ? 5 : 2); pi++)
 			for (int level = 0; level <= 3; level++)
 				for (int ci = 0; ci < 4; ci++) {
 					if (!v_mine(unit++))
@@ -238,6 +238,27 @@ static void deflate_stored_fallback(void)
 					}
 }
 
+static void deflate_big_then_tiny(void)
+{
+	static uint8_t *B;
+	static const int cpus[] = { CPU_BASE, CPU_SSE, CPU_AVX2, CPU_AVX512G2 };
+	if (!B)
+		B = malloc(150000);
+	uint64_t unit = 2900000;
+	for (int kind = 0; kind < 2; kind++)
+		for (int level = 0; level <= 3; level++)
+			for (int lbi = 0; lbi < 4; lbi++) {
+				if (level == 0 && lbi)
+					continue;
+				if (!v_mine(unit++))
+					continue;
+				if (nfail > 20 || v_deadline_hit())
+					return;
+				if (kind) fill_mixed(B, 150000, 21); else fill_pattern(B, 150000, PAT_LOG, 22);
+				def_big_then_tiny(B, 150000, kind ? "mixed" : "log", level, (level + lbi + kind) % 3 == 0 ? IGZIP_DEFLATE : (level + lbi + kind) % 3 == 1 ? IGZIP_GZIP : IGZIP_ZLIB, cpus[(level + lbi + kind) % 4], lbi);
+			}
+}
+
 int main(int argc, char **argv)
 {
 	v_init(argc, argv, "C07");
@@ -247,10 +268,15 @@ int main(int argc, char **argv)
 		inflate_part();
 	if (!v_part || !strcmp(v_part, "deflate"))
 		deflate_part();
+	if (v_part && !strcmp(v_part, "stored-fallback"))
+		deflate_stored_fallback();
+	if (v_part && !strcmp(v_part, "big-then-tiny"))
+		deflate_big_then_tiny();
 	if (!v_part || !strcmp(v_part, "deflate-layers")) {
 		deflate_layers();
 		deflate_window_edge();
 		deflate_stored_fallback();
+		deflate_big_then_tiny();
 	}
 	if (v_shard == 0) {
 		v_note("state = byte image of the caller-owned context (+ level buffer) and the harness cursor; key masks only regions the structure declares dead (tmp buffers beyond their valid counts); every transition is a real API call on fresh exact-size end-flush mappings, recycled mappings are PROT_NONE");
